@@ -1,4 +1,5 @@
 mod common;
+mod diff;
 mod gen1;
 mod gen2;
 mod l1;
@@ -48,6 +49,7 @@ fn main() {
             match ba.engine.as_str() {
                 "l1" => run1::run_batch(ba),
                 "l2" => run2::run_batch(ba),
+                "diff" => diff::run_batch(ba),
                 e => {
                     eprintln!("unknown engine {e}");
                     2
@@ -60,6 +62,7 @@ fn main() {
             match rp.engine.as_str() {
                 "l1" => run1::replay(&rp, path),
                 "l2" => run2::replay(&rp, path, args.iter().any(|a| a == "--quiet")),
+                "diff" => diff::replay(&rp, path, args.iter().any(|a| a == "--quiet")),
                 e => {
                     eprintln!("unknown engine {e}");
                     2
